@@ -254,7 +254,7 @@ def runTrials (o : Ops α) (adj : List (List (Edge α))) (mass : List α) (W H :
 
 /-- lines 122–133 for one module, given its new centre `p`. -/
 def finishModule {β : Type} (m : SMod α β) (p : α × α) : Except Err (SMod α β) := do
-  let rects ← if m.hard && !m.fixed then recenter p m.rects else pure m.rects
+  let rects ← (if m.hard && !m.fixed then recenter p m.rects else pure m.rects : Except Err (List (SRect α)))
   let center := if m.hard && !m.terminal then none else some p
   pure { m with center := center, rects := rects }
 
@@ -266,23 +266,30 @@ def finishAll {β : Type} (xs ys : List α) (W H : α) : List (SMod α β) → N
     let ms' ← finishAll xs ys W H ms (i + 1)
     pure (m' :: ms')
 
+/-- `_centers[d]` as passed to `spectral_layout_die`: the centre of a module when it is known and kept
+    (`nfloorplans = 0`, or the module is fixed), `-1.0` otherwise. -/
+def initCentres {β : Type} (mods : List (SMod α β)) (nfloorplans : Nat) (d : Bool) : List α :=
+  mods.map fun m => match m.center with
+    | some c => if nfloorplans = 0 ∨ m.fixed = true then (if d then c.2 else c.1) else -one
+    | none => -one
+
+/-- the assertions of `_build_graph` / `spectral_layout` that do not depend on the run. -/
+def layoutGuards {β : Type} (mods : List (SMod α β)) (nfloorplans : Nat) : Bool :=
+  -- a fixed module has a centre; more than two nodes; with `nfloorplans = 0` every module has a centre
+  !(mods.any fun m => m.fixed && m.center.isNone) && decide (2 < mods.length) &&
+    !(decide (nfloorplans = 0) && mods.any fun m => m.center.isNone)
+
 /-- `Spectral(netlist).spectral_layout(Shape(W, H), nfloorplans, False)`. -/
 def spectralLayout (o : Ops α) {β : Type} (mods : List (SMod α β)) (nets : List (SNet α)) (W H : α)
     (nfloorplans : Nat) (draws : List α) (maxIter : Nat := 10000) : Except Err (List (SMod α β)) := do
-  let n := mods.length
-  let adj ← buildAdj n nets
-  let mass := mods.map (·.mass)
-  let fixed := mods.map (·.fixed)
-  -- `_build_graph`: a fixed module must have a centre
-  if mods.any (fun m => m.fixed && m.center.isNone) then .error .assertion
-  if n ≤ 2 then .error .assertion
-  if nfloorplans = 0 ∧ mods.any (fun m => m.center.isNone) then .error .assertion
-  let known := fun (m : SMod α β) => nfloorplans = 0 ∨ m.fixed
-  let c0 := mods.map fun m => match m.center with | some c => if known m then c.1 else -one | none => -one
-  let c1 := mods.map fun m => match m.center with | some c => if known m then c.2 else -one | none => -one
-  let best ← runTrials o adj mass W H c0 c1 fixed maxIter (if nfloorplans = 0 then 1 else nfloorplans) draws none
-  match best with
-  | none => .error .assertion
-  | some b => finishAll b.xs b.ys W H mods 0
+  let adj ← buildAdj mods.length nets
+  if layoutGuards mods nfloorplans then
+    let best ← runTrials o adj (mods.map (·.mass)) W H (initCentres mods nfloorplans false)
+      (initCentres mods nfloorplans true) (mods.map (·.fixed)) maxIter
+      (if nfloorplans = 0 then 1 else nfloorplans) draws none
+    match best with
+    | none => .error .assertion
+    | some b => finishAll b.xs b.ys W H mods 0
+  else .error .assertion
 
 end FV.Spectral
